@@ -122,6 +122,12 @@ def run_groups(prop, groups, tier, workdir, only_harness=None):
     solver_s = 0.0
     repo = vxlib.REPO
     alt = os.path.realpath(repo) != "/repo"
+    # ---- phase 1: which groups can reuse results (byte-identical inputs), which must run
+    # Results of a group are reused between the checks of different properties ONLY when every input is byte-identical
+    # (sources of the repository, the group's harness files, harness list, tier); VERIF_NOCACHE=1 disables the reuse.
+    cdir = os.path.join(vxlib.WORK, "kani", "cache")
+    os.makedirs(cdir, exist_ok=True)
+    plan = []
     for g in groups:
         if g not in allg:
             raise vxlib.Infra("unknown kani group %s" % g)
@@ -132,39 +138,54 @@ def run_groups(prop, groups, tier, workdir, only_harness=None):
             hs = [h for h in hs if h["name"] == only_harness]
         if not hs:
             continue
-        tdir = os.path.join(workdir if alt else os.path.join(vxlib.WORK, "kani"), "target-%s-n%s" % (g, n))
+        key = _tree_key(repo, g, n, tier, [h["name"] for h in hs])
+        cfile = os.path.join(cdir, key + ".json")
+        res = None
+        if os.path.exists(cfile) and not os.environ.get("VERIF_NOCACHE") and not only_harness:
+            try:
+                res = json.load(open(cfile))
+            except Exception:
+                res = None
+        plan.append({"g": g, "G": G, "n": n, "unwind": n + G.get("unwind_extra", 3), "hs": hs, "key": key, "cfile": cfile, "res": res,
+                     "note": "reused (identical inputs, key %s)" % key if res is not None else "fresh run (key %s)" % key})
+    # ---- phase 2: one `cargo kani` invocation per (N, unwind, features) class: the crate is compiled once per class
+    classes = {}
+    for pl in plan:
+        if pl["res"] is None:
+            classes.setdefault((pl["n"], pl["unwind"], pl["G"].get("features", "alloc")), []).append(pl)
+    for (n, unwind, feats), pls in classes.items():
+        names = [h["name"] for pl in pls for h in pl["hs"]]
+        tag = "+".join(pl["g"] for pl in pls)
+        tdir = os.path.join(workdir if alt else os.path.join(vxlib.WORK, "kani"), "target-n%s-u%s" % (n, unwind))
         env = dict(os.environ, CARGO_NET_OFFLINE="true", VERIF_KANI_N=str(n), CARGO_TERM_COLOR="never")
         env.pop("RUSTUP_TOOLCHAIN", None)
-        jobs = min(len(hs), int(os.environ.get("VERIF_KANI_JOBS", "14")))
-        extra = ["--target-dir", tdir, "--output-format", "terse", "--exact", "-j", str(jobs),
-                 "--default-unwind", str(n + G.get("unwind_extra", 3))]
-        for h in hs:
-            extra += ["--harness", h["name"]]
-        cmd = kani_cmd(G.get("features", "alloc"), extra)
-        cmds.append("(cd %s && VERIF_KANI_N=%s CARGO_NET_OFFLINE=true %s)" % (repo, n, " ".join(cmd)))
-        # Results of a group are reused between the checks of different properties ONLY when every input is
-        # byte-identical (sources of the repository, harness files, runner); VERIF_NOCACHE=1 disables the reuse.
-        cdir = os.path.join(vxlib.WORK, "kani", "cache")
-        os.makedirs(cdir, exist_ok=True)
-        key = _tree_key(repo, g, n, tier, [h["name"] for h in hs])
-        cfile = os.path.join(cdir, key + ".log")
-        cached = False
-        if os.path.exists(cfile) and not os.environ.get("VERIF_NOCACHE") and not only_harness:
-            out = open(cfile).read()
-            rc, wall, cached = 0, 0.0, True
-        else:
-            rc, out, wall = _run(cmd, repo, env, G.get("timeout", {}).get(tier, 3000))
-            if rc != -9 and "Checking harness" in out and not only_harness:
-                open(cfile, "w").write(out)
-        open(os.path.join(workdir, "kani_%s.log" % g), "w").write(out)
-        cache_note = "reused (identical inputs, key %s)" % key if cached else "fresh run (key %s)" % key
+        jobs = min(len(names), int(os.environ.get("VERIF_KANI_JOBS", "14")))
+        extra = ["--target-dir", tdir, "--output-format", "terse", "--exact", "-j", str(jobs), "--default-unwind", str(unwind)]
+        for nm in names:
+            extra += ["--harness", nm]
+        cmd = kani_cmd(feats, extra)
+        short = kani_cmd(feats, ["--target-dir", tdir, "--output-format", "terse", "--exact", "-j", str(jobs), "--default-unwind", str(unwind), "--harness", "<%d harnesses of groups %s>" % (len(names), tag)])
+        cmds.append("(cd %s && VERIF_KANI_N=%s CARGO_NET_OFFLINE=true %s)" % (repo, n, " ".join(short)))
+        tmo = sum(pl["G"].get("timeout", {}).get(tier, 3000) for pl in pls)
+        rc, out, wall = _run(cmd, repo, env, tmo)
+        open(os.path.join(workdir, "kani_%s.log" % tag[:80]), "w").write(out)
         if rc == -9:
-            infra.append("group %s: timeout" % g)
+            infra.append("groups %s: timeout after %ds" % (tag, tmo))
             continue
         if re.search(r"^error(\[E\d+\])?:", out, re.M) and "Checking harness" not in out:
-            infra.append("group %s: build failed: %s" % (g, "\n".join(l for l in out.split("\n") if l.startswith("error"))[:1500]))
+            infra.append("groups %s: build failed: %s" % (tag, "\n".join(l for l in out.split("\n") if l.startswith("error"))[:1500]))
             continue
-        res = parse_terse(out)
+        allres = parse_terse(out)
+        for pl in pls:
+            pl["res"] = {h["name"]: allres[h["name"]] for h in pl["hs"] if h["name"] in allres}
+            complete = len(pl["res"]) == len(pl["hs"]) and all(r["status"] in ("SUCCESSFUL", "FAILED") for r in pl["res"].values())
+            if complete and not only_harness:
+                json.dump(pl["res"], open(pl["cfile"], "w"))
+    # ---- phase 3: verdicts
+    for pl in plan:
+        g, G, n, hs, res, cache_note = pl["g"], pl["G"], pl["n"], pl["hs"], pl["res"], pl["note"]
+        if res is None:
+            continue
         for h in hs:
             r = res.get(h["name"])
             if r is None:
